@@ -603,3 +603,53 @@ def contracts():
     u = _c05.update_contract()
     u.prop = "C02"
     return _c02_base3() + [u]
+
+
+# ======================================================================================
+# Dynamic.__set__ — nothing happens to a value generator before the assignment is accepted
+# ======================================================================================
+def dynamic_set_contract():
+    """`Dynamic.__set__(obj, val)`: the generator bookkeeping (`_initialize_generator`, which resets the
+    generator's cache) runs only AFTER `Parameter.__set__` accepted the value — a rejected assignment of a
+    callable that is already the dynamic value of another parameter must not wipe its state."""
+    def configure(I):
+        def base_set(I, st, fv, args, kwargs, ctx):
+            st.ghost["order"] = st.ghost.get("order", []) + ["set"]
+            q = st.fork()
+            return [(st, Conc(None)), (q, Raise("TypeError", origin="Parameter.__set__"))]
+        I.contracts["Parameter.__set__"] = base_set
+
+        def init_gen(I, st, fv, args, kwargs, ctx):
+            st.ghost["order"] = st.ghost.get("order", []) + ["initialize_generator"]
+            return [(st, Conc(None))]
+        I.contracts["Dynamic._initialize_generator"] = init_gen
+
+        def set_inst(I, st, fv, args, kwargs, ctx):
+            st.ghost["order"] = st.ghost.get("order", []) + ["set_instantiate"]
+            return [(st, Conc(None))]
+        I.contracts["Parameter._set_instantiate"] = set_inst
+        I.lib["deco:instance_descriptor"] = lambda I, st, fv, args, kwargs, ctx: None
+
+    def setup(I, st):
+        self, T = S.param_obj(I, st, "Dynamic", {}, label="self")
+        obj, val = Sym(I.U.fresh("obj")), Sym(I.U.fresh("val"))
+        fv = I.bound_method(self, I.src.find_method("Dynamic", "__set__"))
+        return fv, [obj, val], {}, {"val": val.t, "obj": obj.t, "symbols": {}}
+
+    def post(I, info, st, oc):
+        order = st.ghost.get("order", [])
+        if isinstance(oc, Raise):
+            return [("C02/a rejected assignment touches no generator state (nothing runs before or after the refused set)",
+                     z3.BoolVal(order == ["set"] and oc.origin == "Parameter.__set__"))]
+        first = order[:1] == ["set"]
+        return [("C02/the value is assigned first, generator bookkeeping follows", z3.BoolVal(first)),
+                ("C02/a callable value is initialised as a generator exactly once, a plain value never",
+                 z3.If(vm.is_callable(info["val"]), z3.BoolVal(order.count("initialize_generator") == 1), z3.BoolVal(order.count("initialize_generator") == 0)))]
+    return FunctionContract("param.parameters:Dynamic.__set__", "C02", setup, post, configure=configure, name="Dynamic.__set__")
+
+
+_c02_base4 = contracts
+
+
+def contracts():
+    return _c02_base4() + [dynamic_set_contract()]
